@@ -11,9 +11,9 @@ use std::sync::Mutex;
 use std::time::Instant;
 
 /// Root of the verification directory (evidence, replays, regress, KNOWN_FINDINGS). `/verif` unless
-/// FQV_verif_dir() is set (used only by the sensitivity tooling, which runs against scratch copies).
+/// FQV_VERIF_DIR is set (used only by the sensitivity tooling, which runs against scratch copies).
 pub fn verif_dir() -> String {
-    std::env::var("FQV_verif_dir()").unwrap_or_else(|_| "/verif".to_string())
+    std::env::var("FQV_VERIF_DIR").unwrap_or_else(|_| "/verif".to_string())
 }
 
 #[derive(Clone, Copy, Debug, PartialEq, Eq)]
@@ -87,6 +87,9 @@ pub struct Obs<'a> {
 }
 
 impl<'a> Obs<'a> {
+    pub fn new(local: &'a RefCell<LocalStats>) -> Obs<'a> {
+        Obs { local, counting: true }
+    }
     pub fn eval(&mut self) {
         if self.counting {
             self.local.borrow_mut().evaluations += 1;
@@ -655,7 +658,7 @@ impl<'e> JobCtx<'e> {
     }
 }
 
-fn load_known(id: &str) -> Vec<Known> {
+pub fn load_known(id: &str) -> Vec<Known> {
     let path = format!("{}/KNOWN_FINDINGS.txt", verif_dir());
     let mut out = Vec::new();
     if let Ok(text) = std::fs::read_to_string(&path) {
